@@ -2,6 +2,8 @@ import Sonic.Model.Itoa
 import Sonic.Spec.Decimal
 import Sonic.Spec.Rne
 import Sonic.Model.Quote
+import Sonic.Model.Memcmp
+import Sonic.Model.StringDec
 
 /-!
 # Line-protocol driver (`sonic_model`)
@@ -70,6 +72,8 @@ def step (st : DState) (line : String) : DState × String :=
   let toks := (line.trimAscii.toString.splitOn " ").filter (· ≠ "")
   match toks with
   | "quote" :: _ => (st, Sonic.Model.Quote.runLine st.W toks)
+  | "memcmp" :: _ => (st, Sonic.Model.Memcmp.runLine toks)
+  | "parsestr" :: _ => (st, Sonic.Model.StringDec.runLine st.W toks)
   | _ => (st, stepLocal toks)
 
 partial def loop (h : IO.FS.Stream) (out : IO.FS.Stream) (st : DState) : IO Unit := do
